@@ -288,3 +288,48 @@ def plain_state(value):
 
 def emitter_config(ctx):
     return {'type': 'vv-rec', 'run_id': ctx.run_id}
+
+
+# ------------------------------------------------------------------ C05 kit
+
+class TickProcess(Process):
+    """Adds 1 to the root variable clock/tick with every update."""
+    defaults = {'run_id': 0, 'time_step': 1.0}
+
+    def ports_schema(self):
+        rid = self.parameters['run_id']
+        return {'clock': {'tick': {
+            '_default': 0, '_emit': True,
+            '_updater': recording_updater(rid, 'tick')}}}
+
+    def next_update(self, timestep, states):
+        ctx = CTX.get(self.parameters['run_id'])
+        if ctx is not None:
+            ctx.rec('invoke', self.name, ctx.now(), timestep, 1, None, None)
+        return {'clock': {'tick': 1}}
+
+
+class DoneStep(Step):
+    """Stamps done/<name> := current tick and records the stamps it sees.
+
+    parameters: run_id, name, all: [names of every step of the compartment]
+    """
+    defaults = {'run_id': 0, 'all': []}
+
+    def ports_schema(self):
+        rid = self.parameters['run_id']
+        return {
+            'done': {n: {'_default': -1, '_emit': True,
+                         '_updater': recording_updater(rid, 'done:' + n, 'set')}
+                     for n in self.parameters['all']},
+            'clock': {'tick': {'_default': 0, '_emit': True,
+                               '_updater': recording_updater(rid, 'tick')}},
+        }
+
+    def next_update(self, timestep, states):
+        ctx = CTX.get(self.parameters['run_id'])
+        tick = states['clock']['tick']
+        if ctx is not None:
+            ctx.rec('step', self.name, ctx.now(), timestep, tick,
+                    dict(states['done']), None)
+        return {'done': {self.name: tick}}
